@@ -25,14 +25,31 @@ def mk(mn, ops, attrs, flags=(), immw=None, exp_op=None, exp_ops=None):
         exp_ops = tuple(isa.exp_opd(o, immw) for o in ops)
     a = {"mnemonic": mn}
     a.update(attrs)
+    if any(o[0] == "m" and o[4] in ("rsp", "esp") for o in ops):
+        flags = tuple(flags) + ("spidx",)
     return Case(text, exp_op or mn, exp_ops, flags, a)
+
+
+def ops_for(case, cfg):
+    """Expected operands under a configuration.  The one documented exception of C02: with the index/base swap
+    option STRICT a stack pointer written as index is encoded literally, i.e. as 'no index'."""
+    if "spidx" in case.flags and cfg[1] == "STRICT":
+        out = []
+        for e in case.ops:
+            if e[0] == "m":
+                lin = tuple((r, c) for r, c in e[3] if r not in ("rsp", "esp")) \
+                    if sum(1 for r, _ in e[3]) > 1 else e[3]
+                e = (e[0], e[1], e[2], lin, e[4])
+            out.append(e)
+        return tuple(out)
+    return case.ops
 
 
 def cfg_name(cfg):
     return "/".join(cfg)
 
 
-def evaluate(case, obs, decs):
+def evaluate(case, obs, decs, cfg=None):
     """-> (set of discrepancies, emitted hex or None)"""
     if hexec.is_crash(obs):
         return {"crash"}, None
@@ -57,14 +74,74 @@ def evaluate(case, obs, decs):
     if dec is None:
         disc.add("harness")
         return disc, hx
-    disc |= isa.compare(case.op, case.ops, dec, case.flags)
+    disc |= isa.compare(case.op, ops_for(case, cfg) if cfg else case.ops, dec, case.flags)
     return disc, hx
 
 
-def run_block(rep, cases, cfgs, extra_check=None, note_outcome=True, validate_tag=None):
+_G = {}
+
+
+def _work(rng):
+    """Pool worker: assemble, decode and evaluate cases[a:b] under every configuration."""
+    a, b = rng
+    cases = _G["cases"][a:b]
+    cfgs = _G["cfgs"]
+    extra_check = _G["extra_check"]
+    group_check = _G["group_check"]
+    lines = []
+    for c in cases:
+        t = hexec.esc_fast(c.text)
+        for cfg in cfgs:
+            lines.append("c64:p:cc\t%s\tA%s" % (hexec.cfg_ops(cfg), t))
+    res = hexec.run(lines, nproc=_G["inner"])
+    blobs = set()
+    for obs in res:
+        if obs and obs[-1].startswith("A:"):
+            f = obs[-1].split(":")
+            if f[1] == "0":
+                n = int(f[2])
+                if 0 < n and 2 * n <= len(f[5]):
+                    blobs.add(f[5][:2 * n])
+    bl = sorted(blobs)
+    decs = dict(zip(bl, decode_many([bytes.fromhex(x) for x in bl], nproc=_G["inner"])))
+    k = 0
+    fails = []
+    outs = set()
+    reached = 0
+    samples = []
+    for ci, c in enumerate(cases):
+        got = False
+        per = []
+        for gi, cfg in enumerate(cfgs):
+            obs = res[k]
+            k += 1
+            disc, hx = evaluate(c, obs, decs, cfg)
+            if hx:
+                got = True
+            if extra_check is not None and hx and not disc:
+                disc |= extra_check(c, cfg, hx, decs.get(hx)) or set()
+            per.append((cfg, disc, hx))
+        if group_check is not None:
+            for gi, more in (group_check(c, per) or {}).items():
+                per[gi] = (per[gi][0], per[gi][1] | more, per[gi][2])
+        for gi, (cfg, disc, hx) in enumerate(per):
+            outs.add(hash(hx) if not disc else hash(tuple(sorted(disc))))
+            if disc:
+                d = decs.get(hx) if hx else None
+                fails.append((a + ci, gi, sorted(disc), hx, d.text if d else ""))
+        if got:
+            reached += 1
+        if ci in (0, len(cases) // 2) and len(samples) < 2:
+            samples.append({"text": c.text, "cfg": cfg_name(per[0][0]), "bytes": per[0][2],
+                            "expected": repr((c.op, c.ops))})
+    return fails, outs, reached, len(lines), samples
+
+
+def run_block(rep, cases, cfgs, extra_check=None, note_outcome=True, validate_tag=None, group_check=None):
     """Assemble every case under every configuration and compare.  extra_check(case, cfg, hex, dec) may
-    return additional discrepancies (used by C11).  With validate_tag the expectations are first checked
-    against nasm (oracle.validate); unconfirmed cases are not used for a verdict, only counted."""
+    return additional discrepancies; group_check(case, [(cfg, disc, hex)...]) may return {cfg index: set} (used by
+    C11).  With validate_tag the expectations are first checked against nasm (oracle.validate); unconfirmed cases
+    are not used for a verdict, only counted.  Returns a few written-out samples."""
     if not cases:
         return []
     if validate_tag:
@@ -78,52 +155,38 @@ def run_block(rep, cases, cfgs, extra_check=None, note_outcome=True, validate_ta
         ov["unvalidated_samples"] = (ov["unvalidated_samples"] + st["unvalidated_samples"])[:12]
         if bad:
             cases = [c for i, c in enumerate(cases) if i not in bad]
-    lines = []
-    for c in cases:
-        t = hexec.esc_fast(c.text)
-        for cfg in cfgs:
-            lines.append("c64:p:cc\t%s\tA%s" % (hexec.cfg_ops(cfg), t))
-    res = hexec.run(lines)
-    blobs = set()
-    for obs in res:
-        if obs and obs[-1].startswith("A:"):
-            f = obs[-1].split(":")
-            if f[1] == "0":
-                n = int(f[2])
-                if 0 < n and 2 * n <= len(f[5]):
-                    blobs.add(f[5][:2 * n])
-    bl = sorted(blobs)
-    decs = dict(zip(bl, decode_many([bytes.fromhex(x) for x in bl])))
-    k = 0
-    results = []
-    for c in cases:
-        reached = False
-        for cfg in cfgs:
-            obs = res[k]
-            k += 1
-            disc, hx = evaluate(c, obs, decs)
-            if hx:
-                reached = True
-            if extra_check is not None and hx and not disc:
-                disc |= extra_check(c, cfg, hx, decs.get(hx)) or set()
-            rep.evaluations += 1
-            rep.traces += 1
-            if note_outcome:
-                rep.outcomes.add(hx if not disc else tuple(sorted(disc)))
-            results.append((c, cfg, disc, hx))
-            if disc:
-                a = dict(c.attrs)
-                a["cfg"] = cfg_name(cfg)
-                d = decs.get(hx) if hx else None
-                rep.fail(a, disc,
-                         {"kind": "e1", "text": c.text, "cfg": list(cfg), "exp": repr((c.op, c.ops, c.flags))},
-                         "%r [%s] -> %s %s; expected %s %s" % (c.text, cfg_name(cfg), hx, d.text if d else "",
-                                                               c.op, _short(c.ops)))
-        if reached:
-            rep.distinct_n += 1
-        rep.states += 1
+    n = len(cases)
+    work = n * len(cfgs)
+    nw = 1 if work < 4000 else min(hexec.NPROC, max(1, work // 4000))
+    _G.update(cases=cases, cfgs=cfgs, extra_check=extra_check, group_check=group_check,
+              inner=max(1, hexec.NPROC // nw))
+    rngs = [(i * n // nw, (i + 1) * n // nw) for i in range(nw)]
+    if nw == 1:
+        parts = [_work(rngs[0])]
+    else:
+        import multiprocessing
+        with multiprocessing.get_context("fork").Pool(nw) as pool:
+            parts = pool.map(_work, rngs)
+    samples = []
+    for fails, outs, reached, nev, smp in parts:
+        rep.evaluations += nev
+        rep.traces += nev
+        rep.distinct_n += reached
+        if note_outcome:
+            rep.outcomes |= outs
+        samples += smp
+        for idx, gi, disc, hx, dtext in fails:
+            c = cases[idx]
+            cfg = cfgs[gi]
+            a = dict(c.attrs)
+            a["cfg"] = cfg_name(cfg)
+            rep.fail(a, disc,
+                     {"kind": "e1", "text": c.text, "cfg": list(cfg), "exp": repr((c.op, c.ops, c.flags))},
+                     "%r [%s] -> %s %s; expected %s %s" % (c.text, cfg_name(cfg), hx, dtext, c.op, _short(c.ops)))
+    rep.states += n
     rep.transitions = rep.evaluations
-    return results
+    _G.clear()
+    return samples
 
 
 def _short(ops):
@@ -142,7 +205,7 @@ def replay(r, verbose=False, extra_check=None):
         if a.ret == 0 and a.off > 0:
             hx = a.hex[:2 * a.off]
             decs[hx] = decode_many([bytes.fromhex(hx)])[0]
-    disc, hx = evaluate(c, obs, decs)
+    disc, hx = evaluate(c, obs, decs, cfg)
     if extra_check is not None and hx and not disc:
         disc |= extra_check(c, cfg, hx, decs.get(hx)) or set()
     if verbose:
